@@ -132,6 +132,7 @@ def run(ctx):
         if M.dep_acyclic(g):
             gs.append(g)
     stream(ctx, gs, "frac", 0)
+    stream(ctx, [M.rand_nullable_grammar(ctx.rng) for _ in range(n)], "frac", 2)
     stream(ctx, [M.rand_grammar(ctx.rng, boolean=True, pnull=0.2, punary=0.25) for _ in range(n)], "bool", 1)
     stream_float(ctx, 20 if quick else 200)
 
